@@ -263,6 +263,58 @@ def report(ctx, tk, rule, funcs, what_prefix=""):
             ctx.holds(rule + "/W0c", f, "every attribute read on self is defined somewhere in the class hierarchy", key="attrs", engine="W0")
 
 
+def constant_truth_conditions(ctx, tk, f):
+    """[(ast node, description)] for branch / assert conditions that are a comparison (or call) resolved to a repository
+    method all of whose returns are generator expressions: a generator object is always truthy, so the condition never fails"""
+    fa = ctx.fa(f)
+    out = []
+    for n in fa.cfg.nodes:
+        if n.kind != "test" or not fa.cfg.is_reachable(n) or n.ast is None:
+            continue
+        tm = fa.term(n.ast, n)
+        parts = []
+        stack = [tm]
+        while stack:
+            t = stack.pop()
+            if t.k == "bool":
+                stack.extend(t.a[1])
+            elif t.k == "un" and t.a[0] == "not":
+                stack.append(t.a[1])
+            else:
+                parts.append(t)
+        # parameters narrowed by dominating isinstance() tests are typed for the duration of this lookup
+        narrowed = tk.R.isinstance_types_at(fa, n)
+        tk.R.dyn_param = {(f.qual, k_): v for k_, v in narrowed.items()}
+        tk.R.ctx._cache.pop("typeof", None)
+        for t in parts:
+            targets = None
+            try:
+                if t.k == "cmp" and t.a[0] in ("==", "!="):
+                    targets = tk.R.resolve_operator(t, fa)
+                elif t.k == "call":
+                    targets = tk.R.resolve_call(t, fa)
+            except Exception:
+                targets = None
+            for g in targets or []:
+                rets = [x for x in ast.walk(g.node) if isinstance(x, ast.Return) and x.value is not None]
+                if rets and all(isinstance(x.value, ast.GeneratorExp) for x in rets):
+                    out.append((n.ast, "`%s` is decided by %s, which returns a generator expression: a generator object is truthy whatever it would yield, "
+                                "so this check can never fail" % (ast.unparse(n.ast)[:90], g.qual)))
+        tk.R.dyn_param = None
+    return out
+
+
+def report_constant_truth(ctx, tk, rule, funcs):
+    for f in funcs:
+        bad = constant_truth_conditions(ctx, tk, f)
+        what = "no condition is decided by a method that returns a generator (always truthy)"
+        if bad:
+            for node, why in bad[:3]:
+                ctx.violated(rule + "/W0d", f, what, why, node=node, engine="W0")
+        else:
+            ctx.holds(rule + "/W0d", f, what, key="truthy", engine="W0")
+
+
 def _hasattr_guarded(f):
     s = set()
     for sub in ast.walk(f.node):
